@@ -173,9 +173,14 @@ class Stmts(FnCtx):
             if self.lw.nontrivial_dtor(t):
                 self.scopes[-1].dtors.append(self.dtor_stmt(t, '&' + name))
         r = self.lw.rec_of(rt)
-        if r is None:
-            self.err(d, 'structured binding over an external type')
         self.bindings = dict(self.bindings)
+        if r is None:
+            # std::pair is modelled as a C struct with the members first and second (tuple protocol = member order)
+            if not str(self.lw.te.canon(rt)).replace('const ', '').startswith('std::pair<') or len(binds) != 2:
+                self.err(d, 'structured binding over an external type %r / %r' % (rt, self.lw.te.canon(rt)))
+            for b, fname in zip(binds, ('first', 'second')):
+                self.bindings[b['id']] = '%s.%s' % (base, fname)
+            return out
         for b, (fname, _, fnode) in zip(binds, r.fields):
             self.bindings[b['id']] = '%s.%s' % (base, fname)
         return out
@@ -418,9 +423,9 @@ class Stmts(FnCtx):
         if r not in lw.late_records:
             lw.late_records.append(r)
         fields = [c for c in kids(rec) if c.get('kind') == 'FieldDecl']
-        call = [c for c in kids(rec) if c.get('kind') == 'CXXMethodDecl' and c.get('name') == 'operator()']
+        call = lambda_call_nodes(rec)
         if not call:
-            self.err(n, 'generic lambda')
+            self.err(n, 'generic lambda without exactly one instantiation')
         if len(fields) != len(inits):
             self.err(n, 'lambda captures (%d fields, %d initialisers)' % (len(fields), len(inits)))
         caps = {}
@@ -497,6 +502,21 @@ class Stmts(FnCtx):
         return cands[0] if len(cands) == 1 else None
 
 
+def lambda_call_nodes(rec):
+    """operator() of a closure class: the method itself, or - for a generic lambda - its instantiated specialisations"""
+    call = [c for c in kids(rec) if c.get('kind') == 'CXXMethodDecl' and c.get('name') == 'operator()']
+    if call:
+        return call
+    out = []
+    for t in kids(rec):
+        if t.get('kind') == 'FunctionTemplateDecl' and t.get('name') == 'operator()':
+            for c in kids(t):
+                if c.get('kind') == 'CXXMethodDecl' and any(k.get('kind') == 'TemplateArgument' for k in kids(c)) \
+                        and any(k.get('kind') == 'CompoundStmt' for k in kids(c)):
+                    out.append(c)
+    return out if len(out) == 1 else []
+
+
 # ---------------------------------------------------------------------- Lowerer extensions
 def all_funcs(self):
     seen = set()
@@ -559,7 +579,7 @@ def preregister_lambdas(self):
                 self.te.record_names[qual] = cname
                 for ctx in (encl, cname + '__call'):
                     self.lambda_recs[(ctx, qual)] = r
-                call = [c for c in kids(rec) if c.get('kind') == 'CXXMethodDecl' and c.get('name') == 'operator()']
+                call = lambda_call_nodes(rec)
                 if call:
                     fn = Func(call[0], qual + '::operator()', r, self)
                     fn.cname = cname + '__call'
